@@ -310,17 +310,28 @@ func scenClient(name string, script []string, clients []string, admin []string, 
 	}
 }
 
+// clientFigure8: a successfully completed update must stay in the one sequential log when leaders change in the
+// Figure-8 pattern (the adversarial final check submits a further update to the next leader)
+func clientFigure8(tier string) *simScenario {
+	sc := scenFigure8Net(tier)
+	sc.Name = "client-figure8-net"
+	sc.Oracles = []string{"client"}
+	return sc
+}
+
 func clientScenarios(tier string) []*simScenario {
 	ops := []string{"update", "read", "barrier", "dirty", "batch2", "update+read", "read+update"}
 	lead := []string{"T:1", "run"}
 	if tier == "thorough" {
 		return []*simScenario{
+			clientFigure8(tier),
 			scenClient("leader", lead, ops, []string{"transfer:2", "demote:1"}, 3, true, false, 3, 2),
 			scenClient("leader", lead, ops, []string{"transfer:2", "demote:1"}, 4, false, true, 3, 2),
 			scenClient("isolated", []string{"T:1", "run", "block:1:2", "block:1:3"}, ops, nil, 3, true, false, 2, 2),
 		}
 	}
 	return []*simScenario{
+		clientFigure8(tier),
 		scenClient("leader", lead, ops, []string{"transfer:2", "demote:1"}, 2, true, false, 2, 1),
 		scenClient("leader", lead, ops, []string{"transfer:2", "demote:1"}, 3, false, true, 2, 2),
 		scenClient("isolated", []string{"T:1", "run", "block:1:2", "block:1:3"}, ops, nil, 2, true, false, 2, 1),
@@ -340,6 +351,7 @@ func init() {
 			return 240 * time.Second
 		},
 		MustReach: []string{"commits", "linchecks"},
+		Extra:     liveConformance,
 		Note:      "update histories are checked twice: against the committed sequence recorded by the ledger (position, exactly-once, real-time order, rejected-never, ambiguous-at-most-once) and by porcupine v1.3.0 against an append-only-list model; reads/barriers by the explicit clauses (prefix of committed, reflects accepted updates)",
 	}
 	vkChecks["C07"] = func(args []string) int { return runSimCheck(c07, args) }
